@@ -21,12 +21,14 @@ func init() {
 		},
 		Items: func(c *Ctx) []Item {
 			var items []Item
-			for _, p := range c.primInstances() {
+			for _, p := range c.primInstancesOpt(true) {
 				p := p
 				switch p.Family {
 				case "WriteString":
 					items = append(items, Item{ID: "text:" + p.Name, Run: func(c *Ctx) { c18text(c, p) }})
-					items = append(items, Item{ID: "text-at-max:" + p.Name, Run: func(c *Ctx) { c18textAtMax(c, p) }})
+					if p.TArgs[0] != "ZzU8" { // (no reader is instantiated for the named prefix type)
+						items = append(items, Item{ID: "text-at-max:" + p.Name, Run: func(c *Ctx) { c18textAtMax(c, p) }})
+					}
 				case "WriteBasicTypeList", "WriteStringList", "WriteFixedStringList", "WriteObjectList":
 					if p.Family == "WriteObjectList" {
 						for _, nb := range [][2]int{{1, 0}, {3, 1}, {3, 2}} {
